@@ -308,6 +308,13 @@ func c06Compare(c rnnCase, outs []tensor.Tensor, Y, Yh, Yc []float64) string {
 		for _, v := range want[i] {
 			mag = math.Max(mag, math.Abs(v))
 		}
+		if mag > 1e4 {
+			// a diverging recurrence (relu as gate activation lets the state grow geometrically):
+			// rounding errors are amplified at the same rate and float32 eventually overflows, so
+			// the values carry no information; shapes and types were checked above
+			ev.Class("C06", "diverging-recurrence-values-not-compared")
+			continue
+		}
 		if d := maxAbsDiff(f64s(outs[i]), want[i]); d > c06Tol*mag {
 			return fmt.Sprintf("%s differs from the ONNX recurrence by %g (tolerance %g)", names[i], d, c06Tol*mag)
 		}
@@ -388,6 +395,9 @@ func c06Split(c rnnCase, whole []tensor.Tensor, k int) string {
 	mag := 1.0
 	for _, v := range f64s(whole[0]) {
 		mag = math.Max(mag, math.Abs(v))
+	}
+	if !(mag <= 1e4) {
+		return "" // diverging recurrence, see c06Compare
 	}
 	if d := maxAbsDiff(y, f64s(whole[0])); d > 1e-6*mag {
 		return fmt.Sprintf("split at %d: concatenated Y differs from the whole-sequence Y by %g", k, d)
